@@ -801,7 +801,7 @@ def translate_function(fn, top, name, params, rettype):
     for p in params:
         tr.env[p] = PARAM_TYPES[p]
     body = tr.block(list(fn.body), Scope(ret=True), 1)
-    return "Definition gen_%s %s %s : M G F T %s :=\n%s.\n" % (name, ENV, signature(params), COQ_TYPES[rettype], body)
+    return "Definition gen_%s %s %s : M (st G F T) %s :=\n%s.\n" % (name, ENV, signature(params), COQ_TYPES[rettype], body)
 
 
 HEADER = """(* GENERATED by harness/c02_py2coq.py from %s -- do not edit, never committed *)
@@ -855,7 +855,7 @@ def translate_source(source, origin="deap/algorithms.py"):
             text = None
         if text is None:
             text = "(* REFUSED %s: %s -- placeholder: the hand model, tied by the correspondence only *)\n" \
-                   "Definition gen_%s %s %s : M G F T %s :=\n  %s.\n" % (
+                   "Definition gen_%s %s %s : M (st G F T) %s :=\n  %s.\n" % (
                        name, str(status[name]).replace("*)", "* )").replace("(*", "( *"), name, ENV, signature(params),
                        COQ_TYPES[rettype], model)
         out += text + "\n"
